@@ -4683,6 +4683,9 @@ def is_local_maximum(image, labels, footprint):
     footprint_extent = (np.array(footprint.shape) - 1) // 2
     if np.all(footprint_extent == 0):
         return labels > 0
+    # the flat indexes below are computed from image.strides and applied to
+    # image.ravel(), which only agree for a C-contiguous image
+    image = np.ascontiguousarray(image)
     result = (labels > 0).copy()
     #
     # Create a labels matrix with zeros at the borders that might be
